@@ -2,6 +2,7 @@ package props
 
 import (
 	"fmt"
+	"strings"
 
 	"github.com/llir/llvm/ir/types"
 
@@ -62,12 +63,37 @@ func c16boundaries(c *fw.Check) {
 	c.Extra["boundary_parameter_types"] = n
 	if fw.HaveLLVM() {
 		// the boundary values are within LLVM's limits: the printed types are valid LLVM.
-		text := ""
-		for i, t := range X {
-			if ds[i].K == "vec" && ds[i].Len > 1<<20 {
-				continue // (llvm-as allocates nothing for types, but keep the module small)
+		// (spelled by the harness, not by the library under test)
+		var spell func(d *td) string
+		spell = func(d *td) string {
+			switch d.K {
+			case "int":
+				return fmt.Sprintf("i%d", d.Bits)
+			case "ptr":
+				if d.AS != 0 {
+					return fmt.Sprintf("%s addrspace(%d)*", spell(d.Elem), d.AS)
+				}
+				return spell(d.Elem) + "*"
+			case "arr":
+				return fmt.Sprintf("[%d x %s]", d.Len, spell(d.Elem))
+			case "vec":
+				if d.Scal {
+					return fmt.Sprintf("<vscale x %d x %s>", d.Len, spell(d.Elem))
+				}
+				return fmt.Sprintf("<%d x %s>", d.Len, spell(d.Elem))
+			case "struct":
+				var fs []string
+				for _, f := range d.Fields {
+					fs = append(fs, spell(f))
+				}
+				return "{ " + strings.Join(fs, ", ") + " }"
 			}
-			text += fmt.Sprintf("declare void @f%d(%s*)\n", i, t)
+			fw.Fatalf("C16 boundary: no spelling for kind %s", d.K)
+			return ""
+		}
+		text := ""
+		for i, d := range ds {
+			text += fmt.Sprintf("declare void @f%d(%s*)\n", i, spell(d))
 		}
 		if ok, e := fw.LLVMAccepts(text); !ok {
 			fw.Fatalf("C16 boundary types are not valid LLVM: %s", fw.Trunc(e, 400))
